@@ -49,7 +49,7 @@ func vp_C15_send_join() {
 		key = ed25519.PrivateKey(privBad)
 	}
 	prev, auth := []string{"$p1:y"}, []string{"$a1:y"}
-	if verImpl.EventIDFormat() != EventIDFormatV1 {
+	if vpSpecTraits(ver).idFormat != EventIDFormatV1 {
 		prev = []string{"$0123456789012345678901234567890123456789abc"}
 		auth = []string{"$0123456789012345678901234567890123456789abd"}
 	}
